@@ -91,6 +91,10 @@ def build_page(seed, levels, mask, rot, heavy):
                                   ("link", f"olink{j}"), ("prop", kn, f"own{j}"),
                                   # the very tag and link the NEXT section header carries (if decorated)
                                   ("tag", "#@%+"[(j + 1 + rot) % 4], f"{tn}{j + 1}"), ("link", f"{ln}{j + 1}")])
+            if j % 4 == 3:
+                # bullet properties, and the item's very last word is a quoted word
+                item.cont = [("  * ", [("bprop", f"bp{j}", ["done", "she", "said"])]),
+                             ("  * ", [("bprop", kn, [f"bullet{j}", '"ok"'])])]
             if j % 4 == 1:
                 item.ident = ("long", "2020-12-%02d" % (1 + j))
             else:
